@@ -46,7 +46,7 @@ package bridgeservice
 //@   ensures result1 != nil ==> result0 == nil
 //@   ensures result1 == nil ==> result0 != nil && result0.RollupExitRoot == rollupExitRoot && infoRER(result0.L1InfoTreeIndex) == rollupExitRoot
 
-//@ func (b *BridgeService) getFirstL1InfoTreeIndexForL1Bridge
+//@ func (b *BridgeService) getFirstL1InfoTreeIndexForL1Bridge (b, ctx, depositCount)
 //@   props C12
 //@   requires b != nil && b.l1InfoTree != nil && b.bridgeL1 != nil
 //@   modifies reqFaults, idxAnswer
@@ -61,7 +61,7 @@ package bridgeservice
 // that batch's rollup exit root; isVerified(rollup, ler, rer): a batch verification of that rollup announced local exit
 // root ler together with rollup exit root rer (rigid ghost predicate of the syncer's verify_batches table)
 //@ spec fn isVerified(rollup int, ler Hash, rer Hash) bool
-//@ func (b *BridgeService) getFirstL1InfoTreeIndexForL2Bridge
+//@ func (b *BridgeService) getFirstL1InfoTreeIndexForL2Bridge (b, ctx, depositCount)
 //@   props C12
 //@   requires b != nil && b.l1InfoTree != nil && b.bridgeL2 != nil
 //@   modifies reqFaults, idxAnswer
@@ -96,7 +96,7 @@ package bridgeservice
 //@   ensures reqFaults == old(reqFaults) + ite(result1 == nil, 0, 1)
 //@ extern github.com/agglayer/aggkit/bridgeservice/types.ConvertToProofResponse (proof)
 //@   modifies nothing
-//@ func (b *BridgeService) ClaimProofHandler
+//@ func (b *BridgeService) ClaimProofHandler (b, c)
 //@   props C12
 //@   requires b != nil && b.logger != nil && b.l1InfoTree != nil && b.bridgeL1 != nil && b.bridgeL2 != nil && c != nil
 //@   modifies heap
@@ -115,7 +115,7 @@ package bridgeservice
 //@   modifies nothing
 //@ extern (*github.com/gin-gonic/gin.Context).JSON (c, code, obj)
 //@   modifies nothing
-//@ func parseUintQuery
+//@ func parseUintQuery (c, key, mandatory, defaultVal)
 //@   trusted
 //@   modifies reqFaults
 //@   ensures reqFaults == old(reqFaults) + ite(result1 == nil, 0, 1)
@@ -123,7 +123,7 @@ package bridgeservice
 //@   modifies nothing
 //@ interface go.opentelemetry.io/otel/metric.Int64Counter.Add (self, ctx, incr, options)
 //@   modifies nothing
-//@ func (b *BridgeService) L1InfoTreeIndexForBridgeHandler
+//@ func (b *BridgeService) L1InfoTreeIndexForBridgeHandler (b, c)
 //@   props C12
 //@   requires b != nil && b.logger != nil && b.l1InfoTree != nil && b.bridgeL1 != nil && b.bridgeL2 != nil && c != nil
 //@   modifies heap
